@@ -119,6 +119,38 @@ CLAIMED = {
         "technique": "explicit TLA+ spec (Csv.tla: writer/reader state machine) model-checked with TLC + TLC trace validation "
                      "of recorded write_writer exports",
     },
+    "C18": {
+        "domains": ["dateserial"],
+        "text": "TLC checks a calendar clock (Gregorian successor rule; serial +1 per day, +2 across the phantom 1900-02-29) "
+                "against the closed-form day count and its inverse, inductively year by year (quick 501 years incl. a full "
+                "400-year cycle and both ends, thorough all 8100). Every one of the 2,958,464 days 1900-01-01..9999-12-31 is "
+                "converted by convert_date / convert_date_windows_1900 and back by excel_to_date_time_object (quick: one time of "
+                "day per year rotating over 7 boundary/random times; thorough: 00:00:00, 12:00:00, 23:59:59 + a random time), "
+                "every second of 3 (thorough 14) representative days, and the displayed text of a yyyy-mm-dd hh:mm:ss cell for "
+                "a subset; every observation is judged by TLC: exact day number, day fraction within 2^-13 s, exact round trip "
+                "to the second, strictly increasing serials, exact display string.",
+        "note": TRUST + ". The returned f64 is re-encoded losslessly by the driver (floor + 52 fraction bits as 4 base-2^13 "
+                        "digits) because TLC has 32-bit integers and its Json reader truncates floats. 'Gives the value' is read "
+                        "for a double as exact integer part and fraction within 2^-13 s. Display is checked only for "
+                        "'yyyy-mm-dd hh:mm:ss'. Serial 60 and serials < 1 are outside the property.",
+        "technique": "explicit TLA+ spec (DateSerial.tla) model-checked with TLC + TLC trace validation of recorded library calls",
+    },
+    "C19": {
+        "domains": ["numfmt"],
+        "text": "TLC checks NumFmt.tla (digit-level RoundHalfAway with carry into the integer part, x100 point shift, Group3, "
+                "Fmt) against integer arithmetic - floor(|x|*10^k+1/2), monotonicity, half-unit error, comma positions, text "
+                "shape - on every number with <= 2 integer and <= 3 (thorough 4) fraction digits for 0..4 (thorough 6) "
+                "decimals. Every recorded call of to_formatted_string, Cell::get_formatted_value and "
+                "Worksheet::get_formatted_value on ~20k (thorough ~300k) boundary-biased (number, pattern) pairs, on General "
+                "numbers/text and on every built-in id x finite f64 (incl. random bit patterns) is validated by TLC against "
+                "the same operators. Findings are modelled as the exact function the pinned code computed, so any other "
+                "change of behaviour, inside or outside the defect regions, is still a VIOLATION.",
+        "note": TRUST + ". Numbers are driven in their shortest decimal form (driver checks s == parse(s).to_string(), TLC "
+                        "requires the flag). A negative value that rounds to zero keeps its sign; negative zero itself is not "
+                        "driven under patterns.",
+        "technique": "explicit TLA+ spec (NumFmt.tla: decimal odometer + digit-sequence rounding) model-checked with TLC + TLC "
+                     "trace validation of recorded library calls",
+    },
 }
 
 NOT_CLAIMED = {}
